@@ -15,7 +15,7 @@ import sys
 
 prop, outdir, idx, seed_id = sys.argv[1:5]
 skip_tests = "--skip-tests" in sys.argv
-wt = f"/tmp/mut_{prop}"
+wt = os.environ.get("SEED_WT_DIR", f"/tmp/mut_{prop}")
 patch = os.path.join(outdir, f"patch_{idx}.diff")
 demo = os.path.join(outdir, f"demo_{idx}.py")
 meta_all = json.load(open(os.path.join(outdir, "meta.json")))
